@@ -387,6 +387,15 @@ def make_machine(rec, shrink_budget_s=40.0):
         def reparse(self, sw):
             self._do({"op": "reparse", "switch": sw})
 
+        @rule(first=st.sampled_from((False, True)), m=st.integers(0, 9))
+        def switch_cycle(self, first, m):
+            """Re-parse one way, ask for chains, re-parse the other way (state tied to the first setting must not survive)."""
+            self._do({"op": "reparse", "switch": first})
+            self._do({"op": "chains", "m": m, "S": [], "as": "list", "mutate": False})
+            self._do({"op": "reparse", "switch": None if first is False else False})
+            self._do({"op": "expand", "m": m, "mutate": False})
+            self._do({"op": "reparse", "switch": None})
+
         def teardown(self):
             if self.s is not None:
                 st_ = self.s
